@@ -38,7 +38,7 @@ def _worker(args):
         mod.TWINS[twin]["apply"]()
     try:
         cs = mod.make_case(spec)
-        res = C.explore_case(cs, open_regions, fidelity=fidelity, stop_at_first=twin is not None,
+        res = C.explore_case(cs, open_regions, fidelity=fidelity, stop_at_first=twin is not None and mod.TWINS[twin].get("expect") != "survive",
                              profile=twin is None, max_paths=limits.get("max_paths"),
                              max_wall=limits.get("max_wall"))
     except Exception as e:
@@ -224,9 +224,14 @@ def run_property(prop: str, tier: str, seed: int) -> int:
             lines.append("  regression of fixed finding %s: %s" % (e["id"], e["what"]))
         else:
             finding_notes.append("fixed finding %s: witness passes (regression obligation)" % e["id"])
-    twins_killed = sorted(n for n, d in twin_results.items() if d["killed"])
+    twins_killed = sorted(n for n, d in twin_results.items() if d["killed"] and twins[n].get("expect") != "survive")
+    negative_ok = sorted(n for n, d in twin_results.items() if not d["killed"] and twins[n].get("expect") == "survive")
     for n, d in twin_results.items():
-        if not d["killed"]:
+        if twins[n].get("expect") == "survive":
+            if d["killed"] or d["errors"]:
+                errors.append("negative twin %s (a behaviour-preserving change) was flagged: false-alarm guard failed (%s)"
+                              % (n, d["errors"][:1]))
+        elif not d["killed"]:
             errors.append("twin %s survived: the check is vacuous for that mechanism (%s)" % (n, d["errors"][:1]))
     if not results:
         errors.append("no shape was explored")
@@ -256,7 +261,8 @@ def run_property(prop: str, tier: str, seed: int) -> int:
              "symbolic data; a shape is non-trivial when at least two of its paths have different engine outcomes",
         pruned_paths=agg["pruned"], truncated_shapes=[json.dumps(s, sort_keys=True)[:200] for s in truncated][:50],
         functions_encoded=sorted(functions), bounds=bounds, twins_killed=twins_killed,
-        twins_total=len(twin_results), known_findings_listed=[e["id"] for e in open_f],
+        twins_total=len([n for n in twin_results if twins[n].get("expect") != "survive"]),
+        negative_twins_not_flagged=negative_ok, known_findings_listed=[e["id"] for e in open_f],
         known_finding_instances_seen=known_seen, finding_notes=finding_notes,
         exhaustive=(not truncated and not not_run and not errors),
         solver="z3 %s (python API), QF linear integer arithmetic + Booleans" % _z3v(),
@@ -274,7 +280,7 @@ def run_property(prop: str, tier: str, seed: int) -> int:
     print("%s tier=%s shapes=%d/%d paths=%d decisions=%d solver_queries=%d obligations=%d/%d fidelity=%d "
           "nontrivial=%d twins=%d/%d known_instances=%d violations=%d errors=%d wall=%.1fs"
           % (prop, tier, len(results), len(specs), agg["paths"], agg["decisions"], agg["queries"],
-             agg["discharged"], agg["obligations"], fidelity, nontrivial, len(twins_killed), len(twin_results),
+             agg["discharged"], agg["obligations"], fidelity, nontrivial, len(twins_killed), len([n for n in twin_results if twins[n].get("expect") != "survive"]),
              known_seen, violations, len(errors), wall))
     if violations:
         return 1
